@@ -316,8 +316,10 @@ func (l *vfGateLines) Case(op, impl string) {
 	l.impl = append(l.impl, impl)
 }
 
+// Fail records an oracle failure; "@n" is the index of the op line it is about (the line being
+// produced right now), made global when the instance's lines are written out.
 func (l *vfGateLines) Fail(key, detail string) {
-	l.oracle = append(l.oracle, "ORACLE-FAIL "+key+" | "+detail)
+	l.oracle = append(l.oracle, fmt.Sprintf("ORACLE-FAIL %s @%d | %s", key, len(l.ops), detail))
 }
 
 type vfGateInst struct {
@@ -1430,11 +1432,12 @@ func TestVerifGateCorr(t *testing.T) {
 	checks := 0
 	hist := map[string]int{}
 	for _, r := range results {
+		base := out.N
 		for j := range r.ops {
 			out.Case(r.ops[j], r.impl[j])
 		}
 		for _, l := range r.oracle {
-			fmt.Println(l)
+			fmt.Println(vfGateGlobalIndex(l, base))
 		}
 		checks += r.checks
 		for k, v := range r.hist {
@@ -1510,4 +1513,305 @@ func TestVerifGateAllowed(t *testing.T) {
 	}
 	fmt.Printf("ORACLE-OK checks=%d\n", out.N)
 	_ = hex.EncodeToString
+}
+
+func vfGateGlobalIndex(line string, base int) string {
+	w := strings.SplitN(line, " ", 4)
+	if len(w) == 4 && strings.HasPrefix(w[2], "@") {
+		var n int
+		fmt.Sscanf(w[2], "@%d", &n)
+		w[2] = fmt.Sprintf("@%d", n+base)
+		return strings.Join(w, " ")
+	}
+	return line
+}
+
+// ---------------------------------------------------------------------------- replay of recorded op lines
+
+func vfGateUnhex(s string) (string, error) {
+	if s == "-" {
+		return "", nil
+	}
+	b, err := hex.DecodeString(s)
+	return string(b), err
+}
+
+func vfGateUnlist(s string) ([]string, error) {
+	if s == "~" {
+		return nil, nil
+	}
+	var out []string
+	for _, h := range strings.Split(s, ",") {
+		x, err := vfGateUnhex(h)
+		if err != nil {
+			return nil, err
+		}
+		out = append(out, x)
+	}
+	return out, nil
+}
+
+func vfGateParseAns(s string) (vfGateAns, error) {
+	if s == "E" {
+		return vfGateAns{Err: 1}, nil
+	}
+	w := strings.Split(s, ":")
+	if len(w) != 5 || w[0] != "A" {
+		return vfGateAns{}, fmt.Errorf("bad answer %q", s)
+	}
+	var a vfGateAns
+	if _, err := fmt.Sscanf(w[1], "%d", &a.TTL); err != nil {
+		return a, err
+	}
+	var err error
+	if a.Identity, err = vfGateUnhex(w[2]); err != nil {
+		return a, err
+	}
+	if a.URL, err = vfGateUnhex(w[3]); err != nil {
+		return a, err
+	}
+	if w[4] != "~" {
+		for _, gs := range strings.Split(w[4], ";") {
+			f := strings.Split(gs, "/")
+			if len(f) != 3 {
+				return a, fmt.Errorf("bad grant %q", gs)
+			}
+			var g vfGateGrant
+			if g.Topic, err = vfGateUnhex(f[0]); err != nil {
+				return a, err
+			}
+			if g.Channels, err = vfGateUnlist(f[1]); err != nil {
+				return a, err
+			}
+			if g.Perms, err = vfGateUnlist(f[2]); err != nil {
+				return a, err
+			}
+			a.Grants = append(a.Grants, g)
+		}
+	}
+	return a, nil
+}
+
+func (in *vfGateInst) parseCmd(w []string) (vfGateCmd, error) {
+	bad := fmt.Errorf("bad command %v", w)
+	atoi := func(s string) int {
+		var n int
+		fmt.Sscanf(s, "%d", &n)
+		return n
+	}
+	var err error
+	k := vfGateCmd{Name: w[0]}
+	switch w[0] {
+	case "IDENTIFY":
+		if len(w) != 6 {
+			return k, bad
+		}
+		k.BodyOK, k.FN, k.TLSv1, k.HbOff = w[1] == "1", w[2] == "1", w[3] == "1", w[4] == "1"
+		k.Cert = strings.SplitN(w[5], ":", 2)[0]
+		if !k.BodyOK {
+			k.Body = []byte("{{")
+		} else {
+			m := map[string]interface{}{"client_id": "v", "hostname": "h", "feature_negotiation": k.FN, "tls_v1": k.TLSv1}
+			if k.HbOff {
+				m["heartbeat_interval"] = -1
+			}
+			k.Body, _ = json.Marshal(m)
+		}
+		k.Size = len(k.Body)
+	case "AUTH":
+		if len(w) != 4 {
+			return k, bad
+		}
+		if k.Args, err = vfGateUnlist(w[1]); err != nil {
+			return k, err
+		}
+		k.Size = atoi(w[2])
+		if k.Secret, err = vfGateUnhex(w[3]); err != nil {
+			return k, err
+		}
+		if k.Size > 0 && k.Size <= vfGateMaxBody {
+			k.Body = []byte(k.Secret)
+		}
+	case "PUB", "DPUB":
+		if len(w) != 3 {
+			return k, bad
+		}
+		if k.Args, err = vfGateUnlist(w[1]); err != nil {
+			return k, err
+		}
+		k.Size = atoi(w[2])
+		if k.Size > 0 && k.Size <= vfGateMaxMsg {
+			k.Body = in.body(k.Size)
+		}
+	case "MPUB":
+		if len(w) != 5 {
+			return k, bad
+		}
+		if k.Args, err = vfGateUnlist(w[1]); err != nil {
+			return k, err
+		}
+		k.Size, k.Count = atoi(w[2]), atoi(w[3])
+		if w[4] != "~" {
+			for _, x := range strings.Split(w[4], ",") {
+				k.Sizes = append(k.Sizes, atoi(x))
+			}
+		}
+		if k.Size > 0 && k.Size <= vfGateMaxBody {
+			var b bytes.Buffer
+			binary.Write(&b, binary.BigEndian, int32(k.Count))
+			for _, sz := range k.Sizes {
+				binary.Write(&b, binary.BigEndian, int32(sz))
+				if sz <= 0 || sz > vfGateMaxMsg {
+					break
+				}
+				b.Write(in.body(sz))
+			}
+			k.Body = b.Bytes()
+		}
+	case "SUB", "RDY", "FIN", "REQ", "TOUCH":
+		if len(w) != 2 {
+			return k, bad
+		}
+		if k.Args, err = vfGateUnlist(w[1]); err != nil {
+			return k, err
+		}
+	case "CLS", "NOP":
+	case "UNK":
+		if len(w) != 2 {
+			return k, bad
+		}
+		if k.Unk, err = vfGateUnhex(w[1]); err != nil {
+			return k, err
+		}
+	default:
+		return k, bad
+	}
+	return k, nil
+}
+
+// TestVerifGateReplay re-executes recorded op lines (VERIF_REPLAY: one file, or a directory of
+// *.ops files) against the current tree: same streams and oracle lines as the generated run.
+// Lines that are not cfg / conn / c / cx / x ops are ignored (http lines are re-issued at cfg).
+func TestVerifGateReplay(t *testing.T) {
+	certs := os.Getenv("VERIF_CERTS")
+	path := os.Getenv("VERIF_REPLAY")
+	var files []string
+	if st, err := os.Stat(path); err == nil && st.IsDir() {
+		files, _ = filepath.Glob(filepath.Join(path, "*.ops"))
+		sort.Strings(files)
+	} else {
+		files = []string{path}
+	}
+	out := vfOpen("gaterp")
+	defer out.Close()
+	checks := 0
+	for _, f := range files {
+		raw, err := os.ReadFile(f)
+		if err != nil {
+			t.Fatal(err)
+		}
+		lines := &vfGateLines{hist: map[string]int{}}
+		var in *vfGateInst
+		var stub *vfGateStub
+		conns := map[int]*vfGateConn{}
+		stop := func() {
+			for _, c := range conns {
+				c.raw.Close()
+			}
+			conns = map[int]*vfGateConn{}
+			if in != nil {
+				in.nsqd.Exit()
+				stub.srv.Close()
+				in = nil
+			}
+		}
+		for _, line := range strings.Split(string(raw), "\n") {
+			w := strings.Fields(line)
+			if len(w) == 0 {
+				continue
+			}
+			switch {
+			case w[0] == "cfg" && len(w) == 7:
+				stop()
+				var cfg vfGateCfg
+				var a int
+				fmt.Sscanf(w[1], "%d", &cfg.TLSReq)
+				cfg.Policy, _ = vfGateUnhex(w[2])
+				cfg.Cert = w[3] == "1"
+				fmt.Sscanf(w[4], "%d", &a)
+				cfg.Auth = a != 0
+				stub = vfGateNewStub()
+				dir, _ := os.MkdirTemp(os.Getenv("VERIF_OUT"), "gate-replay-")
+				defer os.RemoveAll(dir)
+				n, err := vfGateStart(cfg, certs, stub, dir)
+				if err != nil {
+					lines.Case(cfg.Line(), "cfg err")
+					stub.srv.Close()
+					continue
+				}
+				pol := "none"
+				if n.tlsConfig != nil {
+					switch n.tlsConfig.ClientAuth {
+					case tls.RequireAnyClientCert:
+						pol = "require"
+					case tls.RequireAndVerifyClientCert:
+						pol = "verify"
+					}
+				}
+				lines.Case(cfg.Line(), fmt.Sprintf("cfg ok eff=%d pol=%s tls=%s auth=%s", n.getOpts().TLSRequired, pol, vfGateB(n.tlsConfig != nil), vfGateB(n.IsAuthEnabled())))
+				in = &vfGateInst{cfg: cfg, nsqd: n, stub: stub, certs: certs, r: vfNewRand(1), out: lines,
+					tag: filepath.Base(f), tcpAddr: n.RealTCPAddr().String()}
+				in.httpCheck()
+			case in == nil:
+				continue
+			case w[0] == "conn" && len(w) == 2:
+				c, err := in.dial()
+				if err != nil {
+					t.Fatal(err)
+				}
+				fmt.Sscanf(w[1], "%d", &c.id)
+				conns[c.id] = c
+				lines.Case(fmt.Sprintf("conn %d", c.id), "conn")
+			case (w[0] == "c" || w[0] == "cx") && len(w) >= 5:
+				var id int
+				fmt.Sscanf(w[1], "%d", &id)
+				c := conns[id]
+				if c == nil || c.closed {
+					continue
+				}
+				fmt.Sscanf(w[2], "%d", &c.vnow)
+				ans, err := vfGateParseAns(w[3])
+				if err != nil {
+					t.Fatal(err)
+				}
+				k, err := in.parseCmd(w[4:])
+				if err != nil {
+					t.Fatal(err)
+				}
+				op, impl := c.run(k, ans, w[0] == "cx")
+				lines.Case(op, impl)
+			case w[0] == "x" && len(w) == 2:
+				var id int
+				fmt.Sscanf(w[1], "%d", &id)
+				c := conns[id]
+				if c == nil || c.closed {
+					continue
+				}
+				c.raw.Close()
+				c.waitGone()
+				c.closed = true
+				lines.Case(fmt.Sprintf("x %d", c.id), "x broker="+vfGateSnapLine(vfGateSnap(in.nsqd)))
+			}
+		}
+		stop()
+		base := out.N
+		for j := range lines.ops {
+			out.Case(lines.ops[j], lines.impl[j])
+		}
+		for _, l := range lines.oracle {
+			fmt.Println(vfGateGlobalIndex(l, base))
+		}
+		checks += lines.checks
+	}
+	fmt.Printf("ORACLE-OK checks=%d\n", checks)
 }
